@@ -23,7 +23,7 @@ HARNESS = "Cfg.Json Cfg.Config Harness.C08"
 ZIMPORT = "From Coq Require Import ZArith."
 NPROBE = 16
 NSCHEMA = 8
-NRT = 12
+NRT = 40
 
 SIG = "M(a ty.K, b ty.K2, c ty.KA, d *ty.K, e []ty.K2) (ty.K, error)"
 SRC = {            # package (relative) -> interfaces in declaration order
@@ -192,7 +192,8 @@ class Gen:
         r = self.rng
         out = {}
         for k in r.sample(SIGKEYS, r.randint(1, 2)):
-            out[k] = ("rt", "R%d" % ((self.lid(level) * 2 + self.fresh()) % NRT))
+            self.nrt = getattr(self, "nrt", 0) + 1          # every entry of a case names its own target type
+            out[k] = ("rt", "R%d" % ((self.lid(level) + self.nrt * 7) % NRT if self.nrt > NRT else self.nrt - 1))
         return out
 
 
@@ -364,6 +365,23 @@ def gen_case(rng, base, stream):
             pk = case["pkgs"][MOD + "/" + rel]
             if pk is not None and pk["config"] is not None and pk["config"]["td"] is not None and r.random() < 0.7:
                 pk["config"]["td"].pop("nest", None)
+    if stream == "leak" and r.random() < 0.6:
+        # the same source package at two levels with different type names: a shared inner map
+        # would carry the recursive package's entry up to the top level and into the sibling
+        keys = r.sample(SIGKEYS, 2)
+        case["file"]["rt"] = dict(case["file"]["rt"] or {})
+        case["file"]["rt"].pop(keys[1], None)
+        case["file"]["rt"][keys[0]] = g.rt("file").popitem()[1]
+        pc = case["pkgs"][MOD + "/p"]["config"]
+        pc["rt"] = dict(pc["rt"] or {})
+        pc["rt"][keys[1]] = g.rt("pkg:" + MOD + "/p").popitem()[1]
+        for rel in ("p/sub", "q"):
+            pk = case["pkgs"][MOD + "/" + rel]
+            if pk is not None:
+                for lv, c in all_levels({"env": case["env"], "file": case["file"], "pkgs": {MOD + "/" + rel: pk}}):
+                    if lv not in ("env", "file") and c["rt"] and r.random() < 0.8:
+                        c["rt"].pop(keys[1], None)
+                        c["rt"] = c["rt"] or None
     case["levels"] = dict(g.levels)
     return case
 
@@ -837,6 +855,11 @@ def oracle(case, obs):
         want_td = chain_td([case["file"], case["env"]])
         if (root.get("template-data") or {}) != want_td:
             errs.append(("sources", "top level template-data %r, expected %r" % (root.get("template-data"), want_td)))
+        got_rt = yaml_cfg_to_abs(root)["rt"]
+        want_rt = {(MOD + "/" + kp, kt): (MOD + "/" + vp, vt) for (kp, kt), (vp, vt) in (case["file"]["rt"] or {}).items()}
+        if got_rt != want_rt:
+            errs.append(("leak" if set(want_rt.items()) <= set(got_rt.items()) else "sources",
+                         "top level replace-type %r, the configuration file says %r" % (sorted(got_rt.items()), sorted(want_rt.items()))))
     elif exp["kind"] == "ok":
         errs.append(("showconfig", obs.get("show_err", "showconfig failed")))
     # ---- outcome of the run
@@ -915,6 +938,12 @@ def oracle(case, obs):
             for cid in chain_ids:
                 if cid in lv:
                     allowed.add(lv[cid])
+            rt_seen, _ = iface_rt(io["sigs"])
+            for key, tgt in sorted(rt_seen.items()):
+                writers = [lid for lid, c in all_levels(case) if c["rt"] and c["rt"].get(key) == tgt]
+                if writers and not any(w in chain_ids for w in writers):
+                    errs.append(("leak", "%s %s: %s.%s is replaced by %s.%s, an entry written only at %s, not in the chain of this mock"
+                                 % (path, io["name"], key[0], key[1], tgt[0], tgt[1], writers)))
             for x in leaves(io["td"]):
                 L = marker_level(x)
                 if L is not None and L not in allowed:
